@@ -270,6 +270,10 @@ where
       (if l.head? == some 32 || l.head? == some 9 then [32]
        else if first then [] else crlf) ++ strip l ++ go false t
 
+/-- one data line of `read_cdx` (`wpull/warc/format.py`): `line.strip().split(separator)`; the
+line still carries its terminator (LF, CRLF, or none at the end of the file) -/
+def readCdxLine (sep : Nat) (line : Str) : List Str := splitOn1 (strip line) sep
+
 /-- the `(name, value)` pairs `parse(strict=False)` adds, names not yet normalised -/
 def parseFieldLines (s : Str) : List (Str × Str) :=
   (splitlines (unfoldLines s)).filterMap fun line =>
